@@ -176,6 +176,19 @@ func (x *Exec) callValue(st *State, fr *Frame, common *ssa.CallCommon, fnVal Val
 			if !iv.Nil.IsFalse() {
 				st.assume(Not(iv.Nil))
 			}
+			// "site call <Method> assert e" also at modelled interface methods: self, arg0.. (or their names)
+			if x.contract != nil && x.contract.Directives["site"] != nil && len(st.frames) > 0 && fr == st.frames[0] {
+				if msig, _ := common.Method.Type().(*types.Signature); msig != nil {
+					bind := map[string]TV{"self": {iv, recvT}}
+					for i := 0; i < msig.Params().Len() && i < len(args); i++ {
+						bind[fmt.Sprintf("arg%d", i)] = TV{args[i], msig.Params().At(i).Type()}
+					}
+					x.siteAsserts(st, fr, "call", mname, bind)
+					if st.dead {
+						return
+					}
+				}
+			}
 			x.usedIntrinsic(c.name)
 			in(x, st, fr, c)
 			return
